@@ -133,6 +133,29 @@ def run(out: Outcome) -> None:
                 _, err = construct(cls, {**base, "two_sided_test": bad})
                 if err is None:
                     out.violation(f"{cls}Config(two_sided_test={bad!r}) is accepted", {"class": cls})
+    # a configuration object of another detector class is a wrong type for `config`
+    for cls in dets.CLASSES:
+        for other in dets.CLASSES:
+            if other == cls or issubclass(getattr(cd, other + "Config"), getattr(cd, cls + "Config")):
+                continue
+            try:
+                getattr(cd, cls)(config=dets.make_config(other, {}))
+                ok = True
+            except TypeError:
+                ok = False
+            except Exception:  # noqa: BLE001
+                ok = False
+            if ok:
+                out.violation(f"{cls}(config={other}Config()) is accepted although the configuration belongs to another detector", {"class": cls, "config_class": other})
+        for junk in ("cfg", 3, {"min_num_instances": 3}):
+            try:
+                getattr(cd, cls)(config=junk)
+                out.violation(f"{cls}(config={junk!r}) is accepted", {"class": cls, "config": repr(junk)})
+            except TypeError:
+                pass
+            except Exception:  # noqa: BLE001
+                pass
+        out.case({"class": cls, "foreign_configs": True})
     # BOCD model, callbacks, other constructors
     for pv, dv in itertools.product([-1.0, 0.0, 0.5, 2.0], [-1.0, 0.0, 1e-9, 1.0]):
         try:
